@@ -10,9 +10,11 @@
         move-to-different-GPU branch), Allocate, unevict, unpipeline (+ the
         RestoreTaskEntry repair of c93da65), unallocate, Unevict
         (undoEarliestValidOperation), ConvertAllAllocatedToPipelined, Checkpoint,
-        Rollback, Discard, Commit (commitEvict with un-evict on API failure,
-        commitPipeline, commitAllocate with cleanupFailedAllocation + early
-        return), undoOperation (appends an undo entry whose reverse re-does),
+        Rollback, Discard, Commit (commitEvict: on API failure the eviction is
+        reversed with the values recorded when the pod was evicted, repair
+        5a5de9a - [commit_before_5a5de9a] is Commit as it was, un-evicting with
+        what the pod object carried at commit time -, commitPipeline,
+        commitAllocate with cleanupFailedAllocation + early return), undoOperation (appends an undo entry whose reverse re-does),
         operationValid
       pkg/scheduler/framework/operations.go (the four log entry kinds)
       pkg/scheduler/framework/session.go   BindPod, updatePodOnSession
@@ -570,7 +572,7 @@ Fixpoint commit_loop (fails : nat -> bool) (s : sess) (all : list op) (ops : lis
       | Some true =>
           match o with
           | OUndo _ => commit_loop fails s all r (S pos)
-          | OEvict pid _ nid _ _ =>
+          | OEvict pid prev nid pg pv =>
               match get_pod s pid with
               | None => commit_loop fails s all r (S pos)
               | Some p =>
@@ -578,7 +580,10 @@ Fixpoint commit_loop (fails : nat -> bool) (s : sess) (all : list op) (ops : lis
                   | None => commit_loop fails s all r (S pos)
                   | Some _ =>
                       let '(s1, failed) := next_call fails s in
-                      let s2 := if failed then unevict s1 pid (p_status p) nid (p_groups p) (p_virt p)
+                      (* 5a5de9a: a refused eviction is reversed with what the operation recorded when the
+                         pod was evicted (evictOp.Reverse()), not with the pod's status / GPU groups /
+                         virtual flag at commit time *)
+                      let s2 := if failed then unevict s1 pid prev nid pg pv
                                 else put_pod s1 (set_vt p false) in
                       let '(s3, cs, ok) := commit_loop fails s2 all r (S pos) in
                       (s3, AEvict pid :: cs, ok)
@@ -617,6 +622,70 @@ Definition commit (fails : nat -> bool) (s : sess) : sess * list api_call :=
   let '(s1, cs, _) := commit_loop fails s (s_log s) (s_log s) 0 in
   (set_log s1 [], cs).
 
+(** Commit as it was before 5a5de9a: a refused Cache.Evict un-evicted the pod with the status, GPU groups and
+    virtual flag the pod object carried AT COMMIT TIME - those of the eviction itself (Releasing, virtual), or
+    of a later step of the statement that was rolled back (the GPU groups assigned for an abandoned
+    nomination, Model/Session.v [unpipeline]): the pod stayed Releasing for the rest of the cycle and a shared
+    pod could be put back on the node under the GPU groups of a nomination on ANOTHER node.  Only the
+    eviction branch differs; used by the witness [C13_erasure_refused_eviction_before_repair] only. *)
+Fixpoint commit_loop_before_5a5de9a (fails : nat -> bool) (s : sess) (all : list op) (ops : list op) (pos : nat)
+  : sess * list api_call * bool :=
+  match ops with
+  | [] => (s, [], true)
+  | o :: r =>
+      match op_valid all pos with
+      | None => (set_stuck s, [], false)
+      | Some false => commit_loop_before_5a5de9a fails s all r (S pos)
+      | Some true =>
+          match o with
+          | OUndo _ => commit_loop_before_5a5de9a fails s all r (S pos)
+          | OEvict pid _ nid _ _ =>
+              match get_pod s pid with
+              | None => commit_loop_before_5a5de9a fails s all r (S pos)
+              | Some p =>
+                  match alookup (t_job (p_task p)) (s_jobs s) with
+                  | None => commit_loop_before_5a5de9a fails s all r (S pos)
+                  | Some _ =>
+                      let '(s1, failed) := next_call fails s in
+                      let s2 := if failed then unevict s1 pid (p_status p) nid (p_groups p) (p_virt p)
+                                else put_pod s1 (set_vt p false) in
+                      let '(s3, cs, ok) := commit_loop_before_5a5de9a fails s2 all r (S pos) in
+                      (s3, AEvict pid :: cs, ok)
+                  end
+              end
+          | OPipe pid _ _ _ _ _ _ =>
+              match get_pod s pid with
+              | None => commit_loop_before_5a5de9a fails s all r (S pos)
+              | Some p =>
+                  let '(s1, _) := next_call (fun _ => false) s in
+                  let '(s3, cs, ok) := commit_loop_before_5a5de9a fails s1 all r (S pos) in
+                  (s3, APipe pid (p_node p) (p_groups p) :: cs, ok)
+              end
+          | OAlloc c _ _ =>
+              match p_node c with
+              | None => (s, [], false)
+              | Some h =>
+                  match alookup h (s_nodes s) with
+                  | None => (s, [], false)
+                  | Some n =>
+                      let s0 := if is_shared (p_task c) then put_node s h (ensure_groups n (p_groups c)) else s in
+                      let '(s1, failed) := next_call fails s0 in
+                      if failed then (fst (unallocate s1 c false), [ABind (p_id c) h (p_groups c)], false)
+                      else
+                        let '(s2, ok) := update_status s1 c Binding in
+                        if ok then
+                          let '(s3, cs, ok3) := commit_loop_before_5a5de9a fails s2 all r (S pos) in
+                          (s3, ABind (p_id c) h (p_groups c) :: cs, ok3)
+                        else (fst (unallocate s2 c false), [ABind (p_id c) h (p_groups c)], false)
+                  end
+              end
+          end
+      end
+  end.
+Definition commit_before_5a5de9a (fails : nat -> bool) (s : sess) : sess * list api_call :=
+  let '(s1, cs, _) := commit_loop_before_5a5de9a fails s (s_log s) (s_log s) 0 in
+  (set_log s1 [], cs).
+
 (** * Commands *)
 Definition step_full (fails : nat -> bool) (s : sess) (c : cmd) : sess * list api_call * bool :=
   if s_stuck s then (s, [], false) else
@@ -645,6 +714,15 @@ Definition step_before_repair (fails : nat -> bool) (s : sess) (c : cmd) : sess 
   end.
 Definition run_before_repair (fails : nat -> bool) (s : sess) (prog : list cmd) : sess :=
   fold_left (fun acc c => fst (step_before_repair fails acc c)) prog s.
+
+(** the commands with Commit as it was before 5a5de9a (only the Commit command differs) *)
+Definition step_before_5a5de9a (fails : nat -> bool) (s : sess) (c : cmd) : sess * list api_call :=
+  match c with
+  | Commit => if s_stuck s then (s, []) else commit_before_5a5de9a fails s
+  | _ => step fails s c
+  end.
+Definition run_before_5a5de9a (fails : nat -> bool) (s : sess) (prog : list cmd) : sess :=
+  fold_left (fun acc c => fst (step_before_5a5de9a fails acc c)) prog s.
 
 (** * Projection: what another component or a later decision can read *)
 Record pview := mkPV { v_status : status; v_node : option positive; v_groups : list positive; v_virt : bool }.
